@@ -151,3 +151,23 @@ def batch_validate(module, cfg, traces, timeout=1200, env=None):
         return res, [rep[i + 1] for i in range(len(traces))]
     finally:
         shutil.rmtree(d, ignore_errors=True)
+
+
+def tlaps(path, timeout=300):
+    """Run the TLA+ proof system on a module of arithmetic facts (stretch evidence, never a verdict).
+    Returns dict(proved=int, total=int, ok=bool, note=str)."""
+    d = scratch("tlaps-")
+    try:
+        shutil.copy(path, d)
+        try:
+            p = subprocess.run(["tlapm", "--toolbox", "0", "0", os.path.basename(path)], cwd=d, stdout=subprocess.PIPE, stderr=subprocess.STDOUT,
+                               timeout=timeout, universal_newlines=True)
+        except (OSError, subprocess.TimeoutExpired) as e:
+            return dict(proved=0, total=0, ok=False, note="tlapm not run: %s" % type(e).__name__)
+        m = re.search(r"All (\d+) obligations? proved", p.stdout)
+        if m:
+            return dict(proved=int(m.group(1)), total=int(m.group(1)), ok=True, note="all obligations proved")
+        m = re.search(r"(\d+)/(\d+) obligations? failed", p.stdout)
+        return dict(proved=0, total=0, ok=False, note=(m.group(0) if m else p.stdout[-300:]))
+    finally:
+        shutil.rmtree(d, ignore_errors=True)
